@@ -561,10 +561,17 @@ def r01_8_tiling(chk, m):
     chk.floor("segment/visible-record pairs", n_pairs, 4)
     buf_cls = ix.get_class("BufferedOutput")
     add = buf_cls.lookup("add_bytes")
-    callers = chk.cg.callers_of(add)
+    # (call sites resolved by type or by method name; the over-approximate pool used for calls through a variable
+    #  - "any escaping function" - says nothing about who produces bytes, such a call is judged where the bound
+    #  method was taken: `add = output.add_bytes` in the record loop)
+    callers = [s_ for s_ in chk.cg.callers_of(add) if s_.kind != "dynamic"]
+    bound_takers = [f_ for f_ in chk.ix.functions.values() if isinstance(f_.node, ast.FunctionDef) and any(
+        isinstance(n_, ast.Attribute) and n_.attr == add.name and not any(
+            isinstance(c_, ast.Call) and c_.func is n_ for c_ in walk_local(f_.node))
+        for n_ in walk_local(f_.node) if isinstance(n_, ast.Attribute) and isinstance(n_.ctx, ast.Load))]
     producers = {m.entry} | {g for g in chk.cg.reachable([m.entry]) if g.cls is m.writer_cls}
-    chk.require(all(s.caller in producers for s in callers) and len(callers) >= 1, "R01.8",
-                "single-producer-for-the-buffer",
+    chk.require(all(s.caller in producers for s in callers) and all(f_ in producers for f_ in bound_takers)
+                and len(callers) + len(bound_takers) >= 1, "R01.8", "single-producer-for-the-buffer",
                 f"add_bytes is called from {sorted({s.caller.short for s in callers})}", add.where)
     # the final drain follows the loop on every normal path
     complete = [o for o in m.seg_outs if o.kind == "val"]
